@@ -110,6 +110,13 @@ func OpenDbStor(store *stor.Stor, mode stor.Mode, check bool) (db *Database, err
 	switch db.readTail() {
 	case shutdown:
 		size = store.Size() - tailSize
+		// if the tail did not fit in the chunk after the state
+		// it was allocated at the start of the next chunk,
+		// leaving up to tailSize-1 zero bytes after the state
+		for n := 1; n < tailSize && size > 0 &&
+			store.Data(size - 1)[0] == 0; n++ {
+			size--
+		}
 	case corrupt:
 		return nil, errors.New("corruption previously detected")
 	default:
